@@ -583,11 +583,23 @@ func (e *Eng) verifyFunc(fc *FuncContract, refute bool, unrollK int) (res *FuncR
 	// along the way (an over-strong callee contract or model would make code dead)
 	if !refute {
 		for i, r := range tr.rets {
-			if r.St.Reach.IsFalse() {
+			if r.St.Reach.IsFalse() || fc.DeadReturns[i+1] {
 				continue
 			}
 			cov := vc.Oblige("cover", fmt.Sprintf("return%d", i+1), r.St.Reach, "")
 			cov.ExpectSat = true
+		}
+	}
+	if fc.SplitReturns && !refute {
+		for ri, r := range tr.rets {
+			if r.St.Reach.IsFalse() {
+				continue
+			}
+			rctx := tr.calleeCtx(fn, tr.params, nil, r.St, tr.entry)
+			for i, c := range fc.DataInv {
+				g := rctx.goal(c.E)
+				vc.Oblige("datainv", fmt.Sprintf("%s@r%d", labelOr(c.Label, i+1), ri+1), Implies(r.St.Reach, g), c.Pos)
+			}
 		}
 	}
 	// normal exits
@@ -644,6 +656,9 @@ func (tr *FnTr) checkPost(fc *FuncContract, fn *ssa.Function, results []Val, kin
 		tr.vc.ObligeIdentities(kind, labelOr(c.Label, i+1), c.Pos)
 	}
 	for i, c := range fc.DataInv {
+		if fc.SplitReturns && !exc && !tr.refute {
+			break // checked per return statement in verifyFunc
+		}
 		g := ctx.goal(c.E)
 		tr.vc.Oblige("datainv", labelOr(c.Label, i+1), Implies(tr.st.Reach, g), c.Pos)
 	}
